@@ -32,13 +32,21 @@ struct node {
 	int			present;
 };
 
-static int cmp_calls;
+static unsigned long cmp_calls;
 static int compare(const struct iv_avl_node *_a, const struct iv_avl_node *_b)
 {
 	const struct node *a = iv_container_of(_a, struct node, an);
 	const struct node *b = iv_container_of(_b, struct node, an);
 	cmp_calls++;
-	return a->key < b->key ? -1 : a->key > b->key;
+	/* only the sign of a comparator's result means anything: the style rotates with the number of calls made so far */
+	switch (cmp_calls % 3) {
+	case 0:
+		return a->key < b->key ? -1 : a->key > b->key;
+	case 1:
+		return a->key - b->key;				/* the subtraction idiom */
+	default:
+		return (a->key < b->key ? -1 : a->key > b->key) * 1000003;
+	}
 }
 
 /* ---- shapes ---------------------------------------------------------- */
@@ -430,7 +438,7 @@ int main(int argc, char **argv)
 	if (!strcmp(part, "exhaustive")) {
 		int H = (int)arg_ll(argc, argv, "--height", 5);
 		exhaustive(H, arg_ll(argc, argv, "--slice", 0), arg_ll(argc, argv, "--slices", 1), 0);
-		mon_printf("STAT part_exhaustive=1 shapes=%ld evaluations=%ld distinct_nontrivial=%llu rotations=%ld full_walks=%ld nodes_walked=%ld compare_calls=%d violations=%ld\n",
+		mon_printf("STAT part_exhaustive=1 shapes=%ld evaluations=%ld distinct_nontrivial=%llu rotations=%ld full_walks=%ld nodes_walked=%ld compare_calls=%lu violations=%ld\n",
 			   n_shapes, n_ops, (unsigned long long)distinct_nt, n_rot, checks_done, nodes_walked, cmp_calls, n_viol);
 	} else if (!strcmp(part, "sampled")) {
 		int H = (int)arg_ll(argc, argv, "--height", 6);
